@@ -114,14 +114,14 @@ func AAlphabet(thorough bool) []AOp {
 		cert(AIns{"reset", k, 0})
 		cert(AIns{"close", k, 0})
 	}
-	cert(AIns{"lock", 0, kB2})                                            // a second buyer: lock of a locked order
-	cert(AIns{"lock", 0, kB1}, AIns{"reset", 0, 0})                       // lock + reset
-	cert(AIns{"reset", 0, 0}, AIns{"close", 0, 0})                        // reset + close (conflict)
-	cert(AIns{"lock", 0, kB1}, AIns{"close", 0, 0})                       // lock + close in one certificate
-	cert(AIns{"close", 0, 0}, AIns{"close", 0, 0})                        // close twice
-	cert(AIns{"lock", 0, kB1}, AIns{"lock", 0, kB2})                      // two locks of one order
-	cert(AIns{"reset", 0, 0}, AIns{"reset", 0, 0})                        // reset twice
-	cert(AIns{"close", 0, 0}, AIns{"close", 1, 0})                        // two different closes
+	cert(AIns{"lock", 0, kB2})                                              // a second buyer: lock of a locked order
+	cert(AIns{"lock", 0, kB1}, AIns{"reset", 0, 0})                         // lock + reset
+	cert(AIns{"reset", 0, 0}, AIns{"close", 0, 0})                          // reset + close (conflict)
+	cert(AIns{"lock", 0, kB1}, AIns{"close", 0, 0})                         // lock + close in one certificate
+	cert(AIns{"close", 0, 0}, AIns{"close", 0, 0})                          // close twice
+	cert(AIns{"lock", 0, kB1}, AIns{"lock", 0, kB2})                        // two locks of one order
+	cert(AIns{"reset", 0, 0}, AIns{"reset", 0, 0})                          // reset twice
+	cert(AIns{"close", 0, 0}, AIns{"close", 1, 0})                          // two different closes
 	cert(AIns{"lock", -1, kB1}, AIns{"reset", -1, 0}, AIns{"close", -1, 0}) // unknown id everywhere
 	if thorough {
 		cert(AIns{"lock", 1, kB2})
@@ -575,6 +575,36 @@ func ExecA(mode string, thorough bool, path []int) (res mc.ExecResult) {
 	if !changed {
 		return // stuttering step: checked, but its successors equal those of its source
 	}
-	res.Key, res.OK = mc.Hash(w.key()), true
+	res.Key, res.OK, res.Info = mc.Hash(w.key()), true, fmt.Sprint(len(w.ids))
 	return
+}
+
+// AOpsFor drops the recipes that cannot be enabled in a state with n ever-created orders (they
+// would be rejected as "not enabled" after a full replay of the prefix).
+func AOpsFor(thorough bool) func(path []int, info string) []int {
+	alpha := AAlphabet(thorough)
+	need := make([]int, len(alpha))
+	for i, o := range alpha {
+		switch o.Kind {
+		case "edit", "delete", "deleteOther":
+			need[i] = o.K + 1
+		case "cert":
+			for _, in := range o.Ins {
+				if in.K+1 > need[i] {
+					need[i] = in.K + 1
+				}
+			}
+		}
+	}
+	return func(_ []int, info string) []int {
+		n := 0
+		fmt.Sscan(info, &n)
+		var ops []int
+		for i := range alpha {
+			if need[i] <= n {
+				ops = append(ops, i)
+			}
+		}
+		return ops
+	}
 }
